@@ -109,11 +109,30 @@ def observe(instances) -> Tuple[Set[Tuple[int, str, int]], Set[Tuple[int, str, i
     return graph, fields, lists
 
 
-def reset_graph():
+_FULL_RESETS = [0]
+
+
+def reset_graph(full: bool = False):
+    """Start a new graph lifetime. The public way is SymbolGraph().clear(); SymbolGraph(), which rebuilds the class
+    diagram (and leaks the old one through lru_caches keyed by it, which makes long runs slower and slower). Between
+    cases the harness therefore empties the instance-level containers of the existing graph in place and falls back
+    to the public way whenever those containers are not what it expects."""
     from krrood.entity_query_language.symbol_graph import SymbolGraph
 
-    SymbolGraph().clear()
-    SymbolGraph()
+    g = SymbolGraph()
+    try:
+        if full or _FULL_RESETS[0] == 0:
+            raise AttributeError("first reset of the process is a full one")
+        import rustworkx
+
+        g._instance_graph = type(g._instance_graph)()
+        g._instance_index.clear()
+        g._class_to_wrapped_instances.clear()
+        g._relation_index.clear()
+    except AttributeError:
+        _FULL_RESETS[0] += 1
+        SymbolGraph().clear()
+        SymbolGraph()
 
 
 def make_population(pop):
